@@ -346,4 +346,68 @@ example : SeqClient.projFull ⟨["s".toList, "f".toList], [], []⟩ srcP = "s[1:
 
 end SourceExamples
 
+/-! ### a grid returned by an earlier read is an object of its own (seed C14-y) -/
+
+/-- **A grid returned by an earlier read is an object of its own.**  After any history `evs1`, `grid[key]` (with
+    `output_grid` on) returns children `l` and a new grid `g` that refers to them.  Whatever happens afterwards
+    (`evs2`: any history — in particular a sub-selection `g[key']`, `Ev.ggrid g key'`, and indexing one of its members,
+    `Ev.vget member idx`, the scenario of seed C14-y, but also reads of the opened grid and sequence derivations):
+    the returned grid still refers to the same children, its deep view — `_output_grid`, per member the id and the
+    data it holds: the received array (positions per source axis) or, for a map a short key left lazy, the proxy's id,
+    slice and session — is what it was when it was returned, every member object has the observable it had, and
+    sub-selecting it or indexing it again returns what it would have returned right away. -/
+theorem C14_returned_grid_unchanged (h : Heap) (w : WF h) (evs1 evs2 : List Ev) (r : Nat) (key : List Idx)
+    (l : List Obj) (e : gridResult (run h evs1) r key = some l) :
+    let h1 := run h evs1
+    let h2 := step h1 (.ggrid r key)
+    let g := h1.objs.length + l.length
+    h2.objs[g]? = some (Obj.grid ((List.range l.length).map fun i => h1.objs.length + i) true)
+    ∧ (∀ i, i < l.length → h2.objs[h1.objs.length + i]? = l[i]?)
+    ∧ (∀ v, gridView h2 g = some v → gridView (run h2 evs2) g = some v)
+    ∧ (∀ i, i ≤ l.length → obs (run h2 evs2) (h1.objs.length + i) = obs h2 (h1.objs.length + i))
+    ∧ (∀ key' l', gridResult h2 g key' = some l' → gridResult (run h2 evs2) g key' = some l')
+    ∧ (∀ i idx ax, varResult h2 (h1.objs.length + i) idx = some ax →
+        varResult (run h2 evs2) (h1.objs.length + i) idx = some ax) := by
+  intro h1 h2 g
+  have w1 : WF h1 := (run_extends h w evs1).2
+  have w2 : WF h2 := (step_extends h1 w1 _).2
+  have hobjs : h2.objs = h1.objs ++ l ++ [Obj.grid ((List.range l.length).map fun i => h1.objs.length + i) true] :=
+    ggrid_objs h1 r key e
+  have ex := (run_extends h2 w2 evs2).1
+  refine ⟨?_, ?_, ?_, ?_, ?_, ?_⟩
+  · rw [hobjs]
+    have : g = (h1.objs ++ l).length := by simp [g]
+    rw [this, List.getElem?_append_right (Nat.le_refl _)]
+    simp
+  · intro i hi
+    rw [hobjs, List.append_assoc, List.getElem?_append_right (by omega)]
+    simp only [Nat.add_sub_cancel_left]
+    rw [List.getElem?_append_left hi]
+  · intro v hv
+    exact gridView_extends ex hv
+  · intro i hi
+    apply obs_extends w2 ex
+    rw [hobjs]; simp; omega
+  · intro key' l' e'
+    exact gridResult_stable (Stable.of_extends ex (run_src h2 evs2)) g key' e'
+  · intro i idx ax e'
+    exact varResult_stable (Stable.of_extends ex (run_src h2 evs2)) _ idx e'
+
+/-- non-vacuity (the seed C14-y scenario on a grid already received): `g2 = grid[0:1]`, then `g2[0]` (sub-selection)
+    and `g2.x[0:1]` (indexing a member); `g2` keeps its children and what they hold -/
+def exLocal : Heap :=
+  ⟨[], [.var ['g'] (.vals [(false, [0, 1]), (false, [0, 1, 2])]), .var ['x'] (.vals [(false, [0, 1])]),
+        .var ['y'] (.vals [(false, [0, 1, 2])]), .grid [0, 1, 2] true], [], []⟩
+example : WF exLocal := by intro p hp; simp [exLocal] at hp
+example : gridResult (run exLocal []) 3 [Idx.sl ⟨some 0, some 1, none⟩]
+    = some [.var ['g'] (.vals [(false, [0]), (false, [0, 1, 2])]), .var ['x'] (.vals [(false, [0])]),
+            .var ['y'] (.vals [(false, [0, 1, 2])])] := by decide
+example :
+    let h2 := step exLocal (.ggrid 3 [Idx.sl ⟨some 0, some 1, none⟩])
+    gridView h2 7 = some (true, [(['g'], .vals [(false, [0]), (false, [0, 1, 2])]), (['x'], .vals [(false, [0])]),
+                                 (['y'], .vals [(false, [0, 1, 2])])])
+    ∧ gridView (run h2 [.ggrid 7 [Idx.int 0], .vget 5 [Idx.sl ⟨some 0, some 1, none⟩]]) 7 = gridView h2 7
+    ∧ (run h2 [.ggrid 7 [Idx.int 0], .vget 5 [Idx.sl ⟨some 0, some 1, none⟩]]).objs.length = 13 := by decide
+
+
 end Pydap.C14
